@@ -86,7 +86,7 @@ fn conformant(schema: &[ClaimSchema], revoked: &[String], claims: &[ClaimData]) 
                     Err(_) => false,
                 },
                 (ClaimValidator::Regex(rx), ClaimData::Revocation(r)) => rx.is_match(&r.value),
-                (ClaimValidator::AnyOne(cs), c) => cs.contains(c),
+                (ClaimValidator::AnyOne(cs), c) => cs.iter().any(|x| claim_str(x) == claim_str(c)), // full representation, independent of ClaimData's own ==
                 _ => false, // validator does not apply to this claim type
             };
             if !ok {
@@ -161,6 +161,8 @@ fn grid<S: ShortGroupSignatureScheme>(em: &mut Emitter, suite: &str) {
         ClaimValidator::Range { min: None, max: None }, ClaimValidator::Range { min: Some(-5), max: Some(7) }, ClaimValidator::Range { min: Some(isize::MIN), max: Some(isize::MAX) }, ClaimValidator::Range { min: Some(7), max: Some(-5) },
         ClaimValidator::AnyOne(vec![HashedClaim::from("abc").into(), NumberClaim::from(7).into(), HashedClaim::from(vec![0xffu8, b'1', b'2', b'3']).into()]),
         ClaimValidator::AnyOne(vec![]),
+        // members that differ from plausible claims only in a field that is not the "raw value"
+        ClaimValidator::AnyOne(vec![EnumerationClaim { dst: "colour".into(), value: 1, total_values: 3 }.into(), HashedClaim::from("abc").into()]),
     ];
     let hashed: Vec<Vec<u8>> = vec![b"".to_vec(), b"abc".to_vec(), b"12".to_vec(), b"123".to_vec(), "é".as_bytes().to_vec(), b"a".to_vec(), vec![0xff, 0xfe], vec![0xff, b'1', b'2', b'3'], vec![b'a', b'b', 0xff], vec![b'a', 0xc3],
         vec![0xc3, 0x28], vec![0xed, 0xa0, 0x80], vec![0xff], vec![b'1', b'2', 0x80, b'3']];
@@ -170,6 +172,14 @@ fn grid<S: ShortGroupSignatureScheme>(em: &mut Emitter, suite: &str) {
     }
     values.push((ClaimType::Scalar, ScalarClaim::from(Scalar::from(7u64)).into()));
     values.push((ClaimType::Enumeration, EnumerationClaim { dst: "e".into(), value: 1, total_values: 3 }.into()));
+    values.push((ClaimType::Enumeration, EnumerationClaim { dst: "colour".into(), value: 1, total_values: 3 }.into()));
+    values.push((ClaimType::Enumeration, EnumerationClaim { dst: "shape".into(), value: 1, total_values: 3 }.into()));
+    values.push((ClaimType::Enumeration, EnumerationClaim { dst: "colour".into(), value: 1, total_values: 200 }.into()));
+    {
+        let mut h = HashedClaim::from("abc");
+        h.print_friendly = !h.print_friendly;
+        values.push((ClaimType::Hashed, h.into()));
+    }
     let mut n = 0usize;
     for (vi, v) in validators.iter().enumerate() {
         for (t, val) in &values {
